@@ -319,8 +319,11 @@ def cfg (ws : List String) : String :=
   | .errRedis => "rdout err redis"
   | .ok servers m =>
     let names := servers.foldl (fun acc s => insertSorted (showServer s) acc) []
-    if servers == [.dflt] && g "obs" == "0" then s!"rdout ok servers=unobserved max={m}"
-    else s!"rdout ok servers=[{",".intercalate names}] max={m}"
+    -- the pool section reaches the pool unchanged; without one: Fifo, no timeouts
+    let qm := if g "qmobs" == "0" then "unobserved" else if g "qm" == "-" then "fifo" else g "qm"
+    let tail := s!"max={m} qm={qm} wait={g "wait"}"
+    if servers == [.dflt] && g "obs" == "0" then s!"rdout ok servers=unobserved {tail}"
+    else s!"rdout ok servers=[{",".intercalate names}] {tail}"
 
 def parseProto (s : String) : Option Proto :=
   if s == "resp2" then some .resp2 else if s == "resp3" then some .resp3 else none
@@ -577,6 +580,9 @@ def handle (d : SpState) (ws : List String) : SpState × String :=
         | "invalid" => some { c with invalid := true }
         -- an interaction that was cancelled (its closure completes normally) spoils nothing
         | "cancelled" => some c
+        -- cancelled while the closure runs, the closure panics later: poisoned by the time any
+        -- later interaction (a recycle check included) gets the mutex
+        | "latepoison" => some { c with poisoned := true }
         | _ => none
       match c' with
       | some c' => let d' := setConn d id c'; (d', obs d' "spoiled")
